@@ -29,6 +29,8 @@ func main() {
 			os.Exit(2)
 		}
 		os.Exit(checkMain(os.Args[2], os.Args[3]))
+	case "triage":
+		os.Exit(triageMain(os.Args[2], os.Args[3]))
 	case "replay":
 		os.Exit(replayMain(os.Args[2]))
 	case "worker":
@@ -44,6 +46,9 @@ func main() {
 		fs.StringVar(&o.out, "out", "/tmp/vrun-worker", "")
 		fs.BoolVar(&o.verbose, "v", false, "")
 		fs.Parse(os.Args[2:])
+		if os.Getenv("VERIF_TRIAGE") != "" {
+			violationCap = 100000
+		}
 		if s := os.Getenv("VERIF_CASE_TIMEOUT"); s != "" {
 			if n, err := strconv.Atoi(s); err == nil && props[o.prop] != nil {
 				props[o.prop].CaseTimeout = n
